@@ -228,7 +228,8 @@ func c20Run(c c20Case) (reached string, bad string) {
 		if _, err := strvals.ParseFile(s, func(rs []rune) (interface{}, error) { return string(rs), nil }); err == nil {
 			ok++
 		}
-		base := map[string]interface{}{"a": "scalar", "b": []interface{}{"x"}, "c": map[string]interface{}{"d": nil}}
+		base := map[string]interface{}{"a": "scalar", "b": []interface{}{"x"}, "c": map[string]interface{}{"d": nil},
+			"list": []interface{}{map[string]interface{}{"name": "n"}}, "j": []interface{}{float64(1), float64(2)}}
 		_ = strvals.ParseInto(s, base)
 		_ = strvals.ParseLiteralInto(s, base)
 		_, _ = strvals.ToYAML(s)
@@ -537,7 +538,12 @@ func c20GenChart(t *rapid.T, target string) c20Case {
 		if rapid.IntRange(0, 2).Draw(t, "dep"+f) == 0 {
 			switch f {
 			case "import-values":
-				dep[f] = rapid.SampledFrom([]interface{}{[]interface{}{"data"}, []interface{}{map[string]interface{}{"child": "exports.data", "parent": "imported"}}, []interface{}{map[string]interface{}{"child": float64(1), "parent": float64(2)}}, []interface{}{map[string]interface{}{"child": "x"}}, []interface{}{nil}, "str", []interface{}{[]interface{}{"nested"}}}).Draw(t, "iv")
+				dep[f] = rapid.SampledFrom([]interface{}{[]interface{}{"data"}, []interface{}{map[string]interface{}{"child": "exports.data", "parent": "imported"}}, []interface{}{map[string]interface{}{"child": float64(1), "parent": float64(2)}}, []interface{}{map[string]interface{}{"child": "x"}}, []interface{}{nil}, "str", []interface{}{[]interface{}{"nested"}},
+					// parent paths that lead back into the table being imported, or into the subchart's own section
+					[]interface{}{map[string]interface{}{"child": "exports.data", "parent": "sub.exports.data.nested"}},
+					[]interface{}{map[string]interface{}{"child": "exports", "parent": "sub.exports.data"}},
+					[]interface{}{map[string]interface{}{"child": "exports.data", "parent": "sub"}, map[string]interface{}{"child": "exports", "parent": "sub.k"}},
+					[]interface{}{map[string]interface{}{"child": "exports.data", "parent": "."}, "data"}}).Draw(t, "iv")
 			case "tags":
 				dep[f] = rapid.SampledFrom([]interface{}{[]interface{}{"t1"}, []interface{}{"t1", "t2"}, []interface{}{}, []interface{}{"t1"}, "t1", []interface{}{nil, float64(1)}}).Draw(t, "tags")
 			case "enabled":
@@ -637,8 +643,20 @@ func c20GenCase(t *rapid.T) c20Case {
 		return c20GenChart(t, target)
 	case "strvals":
 		seed := rapid.SampledFrom([]string{"a=b", "a.b[0].c=1,d={x,y}", "a=\\,b", "a[0][1]=x", "a.b=", "a={", "a[1", "=x", "a,b", "a..b=1", "a[0].b=,c=1", "a=b=c", "[0]=x", "a[0]b=1", "a={a,b},", "a.b.c.d.e=null"}).Draw(t, "seed")
-		if rapid.IntRange(0, 3).Draw(t, "hostileLine") == 0 {
+		switch rapid.IntRange(0, 5).Draw(t, "lineKind") {
+		case 0:
 			seed = rapid.SampledFrom(c20Hostile).Draw(t, "hostile")
+		case 1, 2:
+			// several assignments whose paths disagree about what lives where (a scalar, a list, a table, a list in a list)
+			var parts []string
+			for i, n := 0, rapid.IntRange(1, 4).Draw(t, "nAssign"); i < n; i++ {
+				path := rapid.SampledFrom([]string{"a", "b", "c", "list", "j"}).Draw(t, "root")
+				for k, m := 0, rapid.IntRange(0, 3).Draw(t, "nSeg"); k < m; k++ {
+					path += rapid.SampledFrom([]string{"[0]", "[1]", ".name", ".d", "[0][1]", "[2]"}).Draw(t, "seg")
+				}
+				parts = append(parts, path+"="+rapid.SampledFrom([]string{"x", "1", "", "{p,q}", "null", "true", "{}"}).Draw(t, "val"))
+			}
+			seed = strings.Join(parts, ",")
 		}
 		c20Put(in, "line", c20MutateBytes(t, []byte(seed), "line"))
 		return c20Case{Target: target, In: in}
